@@ -684,8 +684,12 @@ class AperCheck(Check):
         if cases:
             self.cov["samples"].append({"stream": st.name, "case": st.go_case(cases[len(cases) // 2]), "observed": obs[len(cases) // 2]})
         reported = 0
-        for c, o in zip(cases, obs):
+        for i, (c, o) in enumerate(zip(cases, obs)):
             msg = st.direct_check(c, o)
+            rf = getattr(st, "retained_field", None)       # see vlib/prop.py: results handed out earlier must not change
+            if not msg and rf and i > 0 and isinstance(o, dict) and "prev_now" in o and isinstance(obs[i - 1], dict) and rf in obs[i - 1]:
+                if o["prev_now"] != obs[i - 1][rf]:
+                    msg = "the result returned by the previous call (%s) reads %s after this call" % (obs[i - 1][rf][:80], o["prev_now"][:80])
             if msg:
                 info["spec_bad"] += 1
                 if self.report(st, c, o, "direct oracle: " + msg, None, reported < self.max_replays):
